@@ -793,6 +793,48 @@ def r11_16(ctx, rep):
     rep.ob(R, site, "every equation gets a residual", bad is None, "exitEquation can return without storing the equation's residual", path=cfg.describe(bad) if bad else "")
 
 
+@SPEC.rule(
+    "R11.17",
+    "outputs of a function call are discarded whenever the other side is shorter: in Generator.exitEquation the statement that cuts the "
+    "right-hand side down to the length of the left-hand side is guarded by tests about the right-hand side (it is a call of a user "
+    "function) and about the two lengths only — not by the syntactic kind of the left-hand side (`a = f(x)` with a two-output f discards "
+    "the second output just as `(a) = f(x)` does); and symmetrically for the left-hand side",
+)
+def r11_17(ctx, rep):
+    R = "R11.17"
+    fn = ctx.func(GEN, "Generator.exitEquation", R)
+    site = GEN + ":Generator.exitEquation"
+    src = _sources(fn, {"tree.left": "left", "tree.right": "right"})
+    parents = {}
+    for p_ in ast.walk(fn):
+        for ch in ast.iter_child_nodes(p_):
+            parents[id(ch)] = p_
+    n = 0
+    for st in walk_local(fn):
+        if not (isinstance(st, ast.Assign) and isinstance(st.targets[0], ast.Name) and isinstance(st.value, ast.Subscript) and isinstance(st.value.slice, ast.Slice)
+                and is_name(st.value.value, st.targets[0].id)):
+            continue
+        side = src.get(st.targets[0].id)
+        if side not in ({"left"}, {"right"}):
+            continue
+        n += 1
+        other = "left" if side == {"right"} else "right"
+        tests = []
+        q = st
+        while id(q) in parents and parents[id(q)] is not fn:
+            pq = parents[id(q)]
+            if isinstance(pq, ast.If) and q in pq.body:
+                tests.append(pq.test)
+            q = pq
+        kind_tests = [norm(c)[:60] for t in tests for c in ast.walk(t) if isinstance(c, ast.Call) and is_name(c.func, "isinstance") and c.args
+                      and norm(c.args[0]) == "tree." + other]
+        rep.ob(R, site, "truncation of the %s side does not depend on what kind of node the %s side is" % (list(side)[0], other), not kind_tests,
+               "`%s` runs only under `%s`: for the other spellings of the same equation the surplus outputs stay and the residual gets extra rows" % (
+                   norm(st)[:60], "; ".join(kind_tests)))
+    if n < 2:
+        raise MechanismMissing(R, "the two truncation statements (src = src[0:<other>.size1()]) were not found in exitEquation")
+
+
 # -- seeded variants ---------------------------------------------------------
 from ._mut import replace_in_func  # noqa: E402
 
